@@ -91,12 +91,17 @@ impl<'a> Ref<'a> {
     fn exec(&mut self, p: &Prog) -> Result<(), Abort> {
         self.st.nodes += 1;
         match p {
-            Prog::Set { item, value } => {
+            Prog::Set { item, value, peek } => {
                 self.out.push(Tr::Op(OpRec::Set { item: *item, value: *value }));
                 let i = *item as usize;
                 let prev = std::mem::replace(&mut self.vals[i], *value);
                 self.run_handler(H::Item(*item, Ev::OnEvent), Args::Event { new: *value })?;
                 self.run_handler(H::Item(*item, Ev::OnSet), Args::Set { prev: Some(prev), new: *value })?;
+                // "... run to completion, and only then does the original handler resume and observe their effects."
+                if let Some(pk) = peek {
+                    let seen = self.see(*pk);
+                    self.out.push(Tr::Observe { item: *pk + super::model::PEEK, seen });
+                }
             }
             Prog::Update { item, key, value } => {
                 self.out.push(Tr::Op(OpRec::Update { item: *item, key: *key, value: *value }));
@@ -583,6 +588,14 @@ impl<'a> Chk<'a> {
                         other => return other,
                     }
                 }
+                Tr::Observe { item, seen } if item >= super::model::PEEK => {
+                    let it = item - super::model::PEEK;
+                    let truth = Seen::Val(self.vals[it as usize]);
+                    if seen != truth {
+                        return self.bad("C06.trace", "stale_observe:continuation", format!("the continuation of a handler that set a lane observed {seen:?} of item {it} but the state is {truth:?}"));
+                    }
+                    self.pos += 1;
+                }
                 Tr::Observe { item, seen } => {
                     let truth = if is_map(item) { Seen::Map(self.maps[item as usize - N_VALUES].clone()) } else { Seen::Val(self.vals[item as usize]) };
                     if seen != truth {
@@ -667,7 +680,7 @@ impl<'a> Chk<'a> {
             }
             other => self.bad(
                 "C06.once",
-                &format!("missing:{}", h.kind()),
+                &if other.kind() == "Peek" { format!("missing:{}:continuation_first", h.kind()) } else { format!("missing:{}", h.kind()) },
                 format!("the state change must trigger {h:?} next, but the next entry is {}", other.kind()),
             ),
         }
